@@ -141,6 +141,25 @@ Proof.
   - intros id cx r tn c E Er. unfold init_state in E. cbn [s_ctxs] in E.
     destruct (N.eq_dec root_id id) as [<-|Hne]; [rewrite nm_get_put_same in E; inversion E; subst cx; discriminate Er|].
     rewrite nm_get_put_other in E by exact Hne. rewrite nm_get_empty in E. discriminate.
+  - intros id cl E. unfold init_state in E. cbn [s_cells] in E. rewrite nm_get_empty in E. discriminate.
+  - intros id cx r p E Er. unfold init_state in E. cbn [s_ctxs] in E.
+    destruct (N.eq_dec root_id id) as [<-|Hne]; [rewrite nm_get_put_same in E; inversion E; subst cx; discriminate Er|].
+    rewrite nm_get_put_other in E by exact Hne. rewrite nm_get_empty in E. discriminate.
+Qed.
+
+(* ---- no value is ever reinterpreted as another type ---- *)
+(* after any block, every cell that exists holds a payload of the kind its declared type says *)
+Corollary cells_hold_values_of_their_type ped repl lim fuel bl c s id cl : Inv s ->
+  nm_get id (s_cells (snd (run_block ped repl lim fuel bl c s))) = Some cl -> payload_kind (c_val cl) = dk (c_type cl).
+Proof.
+  intros HI E. destruct (run_block_keeps_constants ped repl lim fuel bl c s HI) as [HI' _]. exact (i_kind _ HI' id cl E).
+Qed.
+(* a value an expression or statement returns is of the kind its result type says, and the state it leaves satisfies the invariant again *)
+Theorem results_are_of_their_type ped repl lim fuel n c s r s' p : Inv s ->
+  ev_eval (evs_at ped repl lim fuel) n c s = (Ok r, s') -> r_val r = Some p -> payload_kind p = dk (r_type r) /\ Inv s'.
+Proof.
+  intros HI E Ev. destruct (evs_at_ok ped repl lim fuel) as [He _].
+  destruct (He (fun _ => True) n c stable_true s HI I) as [A [_ B]]. rewrite E in A, B. cbn [fst snd] in A, B. split; [exact (proj2 (B p Ev))|exact A].
 Qed.
 
 (* ---- CONSTANT c = <literal> in an ordinary context creates such a cell ---- *)
